@@ -144,13 +144,48 @@ def install_gc_guard():
 
 _gc_n = [0]
 _gc_pid = [0]
+CASE_TIMEOUT_S = int(os.environ.get('VERIF_CASE_TIMEOUT_S', 300))
+_case = [None]
 
 
-def gc_point(every=1):
+_armed = [False]
+
+
+def _case_alarm(_sig, _frm):
+    import canon
+    if _armed[0]:
+        raise canon.Hang(_case[0])
+
+
+def arm_case_timeout(what=None):
+    """(re)start the per-case clock: a single case of a check takes milliseconds to seconds; one that
+    has not come back after CASE_TIMEOUT_S is reported by main.py as non-termination"""
+    import signal
+    import threading
+    if threading.current_thread() is not threading.main_thread():
+        return
+    _case[0] = what
+    _armed[0] = True
+    if signal.getsignal(signal.SIGALRM) is not _case_alarm:
+        signal.signal(signal.SIGALRM, _case_alarm)
+    # repeating: the clean-up of the abandoned case (joins of threads that never end) is interrupted too
+    signal.setitimer(signal.ITIMER_REAL, CASE_TIMEOUT_S, 5)
+
+
+def disarm_case_timeout():
+    import signal
+    import threading
+    _armed[0] = False
+    if threading.current_thread() is threading.main_thread():
+        signal.setitimer(signal.ITIMER_REAL, 0)
+
+
+def gc_point(every=1, what=None):
     import gc
     import threading
     if gc.isenabled() or threading.current_thread() is not threading.main_thread():
         return
+    arm_case_timeout(what)
     _gc_n[0] += 1
     if _gc_n[0] % every == 0:
         gc.collect()
@@ -190,6 +225,99 @@ def install_watchdog(seconds, prop):
     return t
 
 
+def _robust_child(fn, items, conn):
+    try:
+        for it in items:
+            conn.send(fn(it))
+    finally:
+        conn.close()
+        sys.stdout.flush()
+        os._exit(0)          # do not wait for threads the code under test may have left behind
+
+
+def _kill_tree(p):
+    try:
+        import psutil
+        for c in psutil.Process(p.pid).children(recursive=True):
+            try:
+                c.kill()
+            except Exception:  # noqa
+                pass
+    except Exception:  # noqa
+        pass
+    try:
+        p.kill()
+    except Exception:  # noqa
+        pass
+    p.join(5)
+
+
+_HANGS = [0]          # hangs seen by this process so far (all calls)
+
+
+def robust_map(fn, items, procs=16, timeout=60, short_timeout=5, hang_value=None):
+    """[fn(x) for x in items] computed in forked worker processes that are watched from here: a worker
+    that delivers nothing for `timeout` seconds is killed (with everything it started), the case it
+    was working on gets `hang_value`, and the rest of its chunk goes to a fresh worker. After three
+    hangs the clock is `short_timeout` so that a code base that hangs often still finishes in minutes."""
+    import collections
+    import multiprocessing as mp
+    from multiprocessing.connection import wait
+    disarm_case_timeout()
+    hang_value = hang_value if hang_value is not None else {'hang': True, 'build': 'hang'}
+    n = len(items)
+    results = [None] * n
+    size = max(1, min(64, n // (procs * 6) or 1))
+    chunks = collections.deque([list(range(i, min(n, i + size))) for i in range(0, n, size)])
+    ctx = mp.get_context('fork')
+    children = {}
+
+    def spawn(chunk):
+        rd, wr = ctx.Pipe(duplex=False)
+        p = ctx.Process(target=_robust_child, args=(fn, [items[i] for i in chunk], wr))
+        p.start()
+        wr.close()
+        children[rd] = {'p': p, 'chunk': chunk, 'pos': 0, 't': time.time()}
+
+    try:
+        while chunks or children:
+            while chunks and len(children) < procs:
+                spawn(chunks.popleft())
+            for c in wait(list(children), timeout=0.5):
+                st = children[c]
+                try:
+                    msg = c.recv()
+                except (EOFError, OSError):
+                    st['p'].join(5)
+                    del children[c]
+                    c.close()
+                    if st['pos'] < len(st['chunk']):      # died while working on an item
+                        results[st['chunk'][st['pos']]] = {'harness_error': 'observation process died'}
+                        rest = st['chunk'][st['pos'] + 1:]
+                        if rest:
+                            chunks.appendleft(rest)
+                    continue
+                results[st['chunk'][st['pos']]] = msg
+                st['pos'] += 1
+                st['t'] = time.time()
+            now = time.time()
+            for c, st in list(children.items()):
+                lim = timeout if _HANGS[0] < 3 else short_timeout
+                if now - st['t'] > lim and st['pos'] < len(st['chunk']):
+                    _kill_tree(st['p'])
+                    results[st['chunk'][st['pos']]] = hang_value
+                    _HANGS[0] += 1
+                    rest = st['chunk'][st['pos'] + 1:]
+                    if rest:
+                        chunks.appendleft(rest)
+                    del children[c]
+                    c.close()
+    finally:
+        for st in children.values():
+            _kill_tree(st['p'])
+    return results
+
+
 # ---- known findings ------------------------------------------------------------------------
 
 def load_known():
@@ -227,6 +355,7 @@ class Report:
         return os.path.join(REPLAYS, f'{self.prop}-{self.tier}-{self.seed}-{self.replay_n}.json')
 
     def violation(self, replay_obj, no_input=False):
+        disarm_case_timeout()
         rel = self.replay_path()
         with open(os.path.join(VERIF, rel), 'w') as f:
             json.dump(replay_obj, f, indent=1, default=str)
